@@ -77,7 +77,22 @@ func (f *format) longHistRun(n int, seed uint64) string {
 		err1 := p.Parse(probe)
 		fresh := newRecorder(-1)
 		err2 := f.newParser(refRecorder{fresh}).Parse(probe)
-		if (err1 == nil) != (err2 == nil) || eventsTok(rec.evs) != eventsTok(fresh.evs) {
+		// by-value or by-reference delivery depends on how far the parser's scratch buffer has grown:
+		// not part of the comparison
+		norm := func(evs []event) string {
+			out := make([]event, len(evs))
+			for i, e := range evs {
+				switch e.kind {
+				case evStr:
+					e = event{kind: evStrRef, s: e.sc.s}
+				case evKey:
+					e.kind = evKeyRef
+				}
+				out[i] = e
+			}
+			return eventsTok(out)
+		}
+		if (err1 == nil) != (err2 == nil) || norm(rec.evs) != norm(fresh.evs) {
 			res = "L diff parser probe"
 			return
 		}
